@@ -1,10 +1,11 @@
 (* C19 — inspect output is Elk source that evaluates back to an equal value.
-   Only statements here; proofs live in Proofs/C19_Inspect.v and Proofs/C19_Int.v.
+   Only statements here; proofs live in Proofs/C19_Inspect.v, Proofs/C19_Int.v and Proofs/C19_Literal.v.
    `inspect_string` / `inspect_char` mirror String.Inspect / Char.Inspect AS FIXED by
    fixes/C19-inspect-escapes.patch; `inspect_string_old` / `inspect_char_old` mirror the
    unfixed functions and carry the _refuted witnesses.  is_graphic / is_letter stand for
    unicode.IsGraphic / unicode.IsLetter and are universally quantified. *)
-From Elk Require Import Base.Utf8 Model.C19_Inspect Proofs.C19_Inspect Proofs.C19_Int.
+From Coq Require Import ZArith List.
+From Elk Require Import Base.Utf8 Model.C19_Inspect Proofs.C19_Inspect Proofs.C19_Int Model.C19_Literal Proofs.C19_Literal.
 Open Scope Z_scope.
 
 (* Every byte string (valid UTF-8 or not) printed by String.Inspect is one plain string
@@ -54,3 +55,74 @@ Example C19_nonvacuous :
   print_int (-1203) = [45; 49; 50; 48; 51] /\
   eval_int_literal [48; 120; 95; 70; 102] = Some 255.
 Proof. repeat split; vm_compute; reflexivity. Qed.
+
+(* ---------- the LITERAL direction: "integer literals in every supported base and
+   String#to_int denote exactly the written value" (Model/C19_Literal.v) ----------
+   A numeral as written is a list of digits ws : list wdigit, each with an optional `_` in front,
+   a letter case and a value; render_digits ws is its text, digits_value b ws 0 its positional
+   value sum(d_i * b^i).  Leading zeros are ordinary digits. *)
+
+(* Every integer literal the lexer accepts - base 10 without prefix (leading zeros included: NOT
+   octal), bases 2 4 8 12 16 with prefix 0b 0q 0o 0d 0x in either case, `_` separators, any of
+   the suffixes i8 i16 i32 i64 u8 u16 u32 u64 u, optional unary + or - in front of a signed kind -
+   is lexed as ONE token of that kind (numberLiteral) whose evaluation (ParseBigInt /
+   StrictParseInt / StrictParseUint with their machine-word overflow tests) yields exactly the
+   written value; it is rejected iff the value does not fit the suffix's width. *)
+Theorem C19_literal_value : forall (k : itok) (b : Z) (up : bool) (sg : option bool) (ws : list wdigit),
+  lexer_base b -> ws <> nil -> Forall (wd_ok b) ws -> (b = 10 -> first_plain ws) ->
+  (sg <> None -> tok_signed k = true) ->
+  eval_literal (sign_str sg ++ base_prefix up b ++ render_digits ws ++ tok_suffix k) =
+  if in_bound k (digits_value b ws 0) then Some (k, sign_apply sg (digits_value b ws 0)) else None.
+Proof. exact literal_value. Qed.
+Print Assumptions C19_literal_value.
+
+(* String#to_int(b) for every explicit base 2..36: digits in either case, `_` anywhere, leading
+   zeros, optional sign - exactly the written value. *)
+Theorem C19_to_int : forall (b : Z) (sg : option bool) (ws : list wdigit),
+  2 <= b <= 36 -> ws <> nil -> Forall (wd_ok b) ws ->
+  to_int (sign_str sg ++ render_digits ws) b = Some (sign_apply sg (digits_value b ws 0)).
+Proof. exact to_int_explicit. Qed.
+Print Assumptions C19_to_int.
+
+(* String#to_int without a base (base 0): a prefixed numeral is read in the prefix's base ... *)
+Theorem C19_to_int_base0_prefixed : forall (b : Z) (up : bool) (sg : option bool) (ws : list wdigit),
+  prefixed_base b -> ws <> nil -> Forall (wd_ok b) ws ->
+  to_int (sign_str sg ++ base_prefix up b ++ render_digits ws) 0 = Some (sign_apply sg (digits_value b ws 0)).
+Proof. exact to_int_prefixed. Qed.
+Print Assumptions C19_to_int_base0_prefixed.
+
+(* ... and an unprefixed one in DECIMAL, whatever its leading zeros ("010" is ten). *)
+Theorem C19_to_int_base0_decimal : forall (sg : option bool) (ws : list wdigit),
+  ws <> nil -> Forall (wd_ok 10) ws ->
+  to_int (sign_str sg ++ render_digits ws) 0 = Some (sign_apply sg (digits_value 10 ws 0)).
+Proof. exact to_int_decimal0. Qed.
+Print Assumptions C19_to_int_base0_decimal.
+
+(* Never a mis-parse: a character that is neither `_` nor a digit of the base, anywhere in the
+   string (the first character not being a sign), makes to_int fail (FormatError). *)
+Theorem C19_to_int_invalid : forall (b : Z) (sg : option bool) (l1 : list Z) (c : Z) (l2 : list Z),
+  2 <= b <= 36 -> hd 0 (l1 ++ c :: nil) <> 43 -> hd 0 (l1 ++ c :: nil) <> 45 -> bad_digit b c ->
+  to_int (sign_str sg ++ l1 ++ c :: l2) b = None.
+Proof. exact to_int_invalid. Qed.
+Print Assumptions C19_to_int_invalid.
+
+Example C19_literal_nonvacuous :
+  (* 0_644 is six hundred forty-four; 010 is ten; -0100 is minus one hundred *)
+  eval_literal (48 :: 95 :: 54 :: 52 :: 52 :: nil) = Some (TInt, 644) /\
+  render_digits ((false, false, 0) :: (true, false, 6) :: (false, false, 4) :: (false, false, 4) :: nil) = 48 :: 95 :: 54 :: 52 :: 52 :: nil /\
+  digits_value 10 ((false, false, 0) :: (true, false, 6) :: (false, false, 4) :: (false, false, 4) :: nil) 0 = 644 /\
+  eval_literal (48 :: 49 :: 48 :: nil) = Some (TInt, 10) /\
+  eval_literal (45 :: 48 :: 49 :: 48 :: 48 :: nil) = Some (TInt, -100) /\
+  (* 0XfFu8 = 255u8, 0x100u8 and 128i8 are rejected, 0d1bi8 = 23i8 *)
+  eval_literal (48 :: 88 :: 102 :: 70 :: 117 :: 56 :: nil) = Some (TU8, 255) /\
+  eval_literal (48 :: 120 :: 49 :: 48 :: 48 :: 117 :: 56 :: nil) = None /\
+  eval_literal (49 :: 50 :: 56 :: 105 :: 56 :: nil) = None /\
+  eval_literal (48 :: 100 :: 49 :: 98 :: 105 :: 56 :: nil) = Some (TI8, 23) /\
+  (* "010".to_int = 10, "0o17".to_int = 15, "zZ".to_int(36) = 1295, "0b1".to_int(16) = 177, "9".to_int(8) fails *)
+  to_int (48 :: 49 :: 48 :: nil) 0 = Some 10 /\
+  to_int (48 :: 111 :: 49 :: 55 :: nil) 0 = Some 15 /\
+  to_int (122 :: 90 :: nil) 36 = Some 1295 /\
+  to_int (48 :: 98 :: 49 :: nil) 16 = Some 177 /\
+  to_int (57 :: nil) 8 = None /\
+  bad_digit 8 57.
+Proof. repeat split; try (vm_compute; reflexivity); try discriminate. Qed.
